@@ -172,7 +172,7 @@ fn spawn_worker(mode: &str, seed: Option<u64>, threads: Option<usize>, large: bo
     c.arg("C20-worker").arg(mode);
     if let Some(s) = seed {
         c.env("VERIF_HASH_SEED", s.to_string());
-        c.env("LD_PRELOAD", "/verif/harness/shim/libgetrandom_shim.so");
+        c.env("LD_PRELOAD", format!("{}/harness/shim/libgetrandom_shim.so", verif_root()));
     }
     if let Some(t) = threads {
         c.env("RAYON_NUM_THREADS", t.to_string());
@@ -208,7 +208,7 @@ pub fn run(mut run: Run) -> i32 {
         "hash seeds are owned through an LD_PRELOAD getrandom shim; the evidence reports how many distinct iteration orders of probe maps the seed set produced".into(),
     ];
     let quick = run.ctx.quick();
-    if !std::path::Path::new("/verif/harness/shim/libgetrandom_shim.so").exists() {
+    if !std::path::Path::new(&format!("{}/harness/shim/libgetrandom_shim.so", verif_root())).exists() {
         panic!("getrandom shim missing: run ./setup.sh");
     }
     let nseeds: u64 = run.ctx.pick(64, 512);
